@@ -83,6 +83,7 @@ def check(run):
                       'position / line-map / temporary-file bookkeeping for the actual side and the expected side are exact mirror '
                       'images of each other (near-mirror statement pairs must be equal under actual<->expected)')
     run.floor('C15-MIRROR', nst, 150)
+    run.attempt(artefacts, run, p, fc)
     run.attempt(cmdfiles, run, p, fc)
     run.attempt(rawlines, run, p, fc)
     run.attempt(tmpcfg, run, p, rt, fc)
@@ -137,11 +138,12 @@ def rawlines(run, p, fc):
                 if isinstance(v, ast.Constant) and v.value is None:
                     run.ob('C15-RAWLINES', key, True, 'no in-memory content is handed over', fn=f, node=x, nontrivial=False)
                     continue
+                from .c11 import backed
                 if not isinstance(v, ast.Name):
-                    run.ob('C15-RAWLINES', key, False, '%s= receives the computed value %s' % (kw.arg, ast.unparse(v)), fn=f, node=x)
+                    backed(run, 'C15-RAWLINES', key, False, '%s= receives the computed value %s' % (kw.arg, ast.unparse(v)), 'C15-ARTEFACTS', fn=f, node=x)
                     continue
                 ok, why = _is_raw(p, f, v.id)
-                run.ob('C15-RAWLINES', key, ok, '%s=%s: %s' % (kw.arg, v.id, why), fn=f, node=x)
+                backed(run, 'C15-RAWLINES', key, ok, '%s=%s: %s' % (kw.arg, v.id, why), 'C15-ARTEFACTS', fn=f, node=x)
     run.floor('C15-RAWLINES', n, 3)
 
 
@@ -291,6 +293,9 @@ def emptycontent(run, p, fc):
                 and isinstance(x.args[1], ast.Name) and x.args[1].id in f.params:
             content.add(x.args[1].id)
     if not content:
+        if any(o.rule == 'C15-ARTEFACTS' for o in run.obs) and all(o.ok for o in run.obs if o.rule == 'C15-ARTEFACTS'):
+            run.note('C15-EMPTY', 'add_failures does not hand a parameter to write_file itself: decided by C15-ARTEFACTS (empty actual content)', fn=f)
+            return
         raise AnalysisError('add_failures no longer writes a parameter out as a file')
     bad = [(nm, node) for nm, node in bare_truth_tests(f.node) if nm in content]
     n = 0
@@ -324,3 +329,160 @@ def sameguide(run, p, fc):
             run.ob('C15-SAMEGUIDE', '%s::%s::line%s' % (f.rel, f.short, ''), len(texts) == 1,
                    '%d post-processed files written with guide %s' % (len(guides), ' / '.join(sorted(texts))), fn=f, node=guides[0][0])
     run.floor('C15-SAMEGUIDE', n, 1)
+
+
+# ---------------------------------------------------------------------------------------------
+# C15-ARTEFACTS: the comparison entry points evaluated on an in-memory file system
+
+def _run_cmp(p, fc, meth, args, kw, files):
+    from ..pyeval import Interp, Obj, Unsupported, Raised, FakeFS, pure_sys
+    fs = FakeFS(files)
+    I = Interp(p)
+    I.safe_modules = {'re'}
+    I.max_steps = 6000000
+    I.extra_names.update({'open': fs.open, 'os': fs.os(), 'sys': pure_sys()})
+    o = Obj(fc)
+    o.attrs.update(print_fn=None, verbose=False, tmp_dir='/tmpdir')
+    try:
+        r = I.call(fc.methods[meth], list(args), dict(kw), selfobj=o)
+    except Raised as e:
+        return None, 'raises %s' % e, fs
+    except Unsupported as e:
+        raise AnalysisError('%s is not evaluable: %s' % (meth, e))
+    failures = r[0]
+    msgs = r[1]
+    lines = msgs.attrs.get('lines') if hasattr(msgs, 'attrs') else None
+    return failures, '\n'.join(lines or []), fs
+
+
+def _drop_comments(lines):
+    return [l for l in lines if not l.startswith('#')]
+
+
+_drop_comments._pyeval_model = True
+
+
+def artefacts(run, p, fc):
+    import re as _re
+    run.rule('C15-ARTEFACTS', 'the string / text-file / binary-file comparisons, evaluated on an in-memory file system: a passing '
+                              'comparison writes nothing; a failing one writes only under the temporary directory; every file named '
+                              'in a comparison command of the message exists; the first command compares the actual content (the file '
+                              'written for a string holds the string, up to its final newline, which the comparison ignores) with the '
+                              'reference; when exclusions excused something a post-processed pair is written whose lines differ exactly '
+                              'where unexcused differences are; the binary message gives the exact first differing offset and lengths')
+    ref = 'alpha\nbeta 12 ms\ngamma ray\ndelta\n'
+    texts = [('identical', ref, {}, True, []),
+             ('one-line-changed', 'alpha\nbeta 12 ms\ngamma ray\nDELTA\n', {}, False, [3]),
+             ('two-lines-changed', 'ALPHA\nbeta 12 ms\ngamma ray\nDELTA\n', {}, False, [0, 3]),
+             ('excused-by-pattern', 'alpha\nbeta 977 ms\ngamma ray\ndelta\n', {'ignore_patterns': [r'\d+']}, True, []),
+             ('pattern-and-a-real-change', 'alpha\nbeta 977 ms\ngamma ray\nDELTA\n', {'ignore_patterns': [r'\d+']}, False, [3]),
+             ('substring-and-a-real-change', 'alpha\nbeta 12 ms\nsomething\nDELTA\n', {'ignore_substrings': ['gamma']}, False, [3]),
+             ('removed-line-and-a-real-change', 'alpha\nSKIP this\nbeta 12 ms\ngamma ray\nDELTA\n', {'remove_lines': ['SKIP']}, False, [4]),
+             ('stripped-and-a-real-change', '  alpha\nbeta 12 ms\ngamma ray\nDELTA\n', {'lstrip': True}, False, [3]),
+             ('line-missing', 'alpha\nbeta 12 ms\ngamma ray\n', {}, False, None),
+             ('empty-actual', '', {}, False, None),
+             ('no-final-newline', 'alpha\nbeta 12 ms\ngamma ray\nDELTA', {}, False, [3]),
+             ('unicode', 'alpha\nbeta 12 ms\ngamma ray\ndélta\n', {}, False, [3]),
+             ('preprocessed', '# note\nalpha\nbeta 12 ms\ngamma ray\nDELTA\n', {'preprocess': _drop_comments}, False, None),
+             ('removable-line-in-the-surplus-tail', 'alpha\nbeta 12 ms\n', {'remove_lines': ['SKIP', 'gamma']}, False, None),
+             ('removable-line-in-the-actual-tail', ref + 'row 2\nSKIP stamp\nrow 3\n', {'remove_lines': ['SKIP']}, False, None)]
+    n = 0
+    for entry in ('check_string_against_file', 'check_file'):
+        for name, actual, kw, passes, badlines in texts:
+            files = {'/ref/out.txt': ref}
+            if entry == 'check_file':
+                files['/w/out.txt'] = actual
+                args = ['/w/out.txt', '/ref/out.txt']
+            else:
+                args = [actual, '/ref/out.txt']
+            before = dict(files)
+            failures, msg, fs = _run_cmp(p, fc, entry, args, kw, files)
+            n += 1
+            probs = []
+            if failures is None:
+                probs.append(msg)
+            elif passes:
+                if failures:
+                    probs.append('reports %s failures for content that agrees' % failures)
+                if fs.written or getattr(fs, 'removed', None):
+                    probs.append('writes %s although the comparison passes' % sorted(fs.written))
+            else:
+                if not failures:
+                    probs.append('passes although line(s) %s differ' % badlines)
+                outside = [q for q in fs.written if not q.startswith('/tmpdir/')]
+                if outside:
+                    probs.append('writes outside the temporary directory: %s' % outside)
+                if any(before.get(q) != fs.files.get(q) for q in before):
+                    probs.append('changes a file it was given')
+                cmds = _re.findall(r'^\s+(?:diff|cmp|fc)\s+(\S+)\s+(\S+)\s*$', msg, _re.M)
+                if not cmds:
+                    probs.append('the message names no comparison command: %r' % msg[:80])
+                for a_, b_ in cmds:
+                    for q in (a_, b_):
+                        if q not in fs.files:
+                            probs.append('the message names %s, which does not exist' % q)
+                if cmds:
+                    a_, b_ = cmds[0]
+                    if b_ != '/ref/out.txt':
+                        probs.append('the first command compares with %s, not the reference' % b_)
+                    got = fs.files.get(a_)
+                    if entry == 'check_file':
+                        if a_ != '/w/out.txt':
+                            probs.append('the first command names %s, not the actual file' % a_)
+                    elif got is not None and got.rstrip('\n') != actual.rstrip('\n'):
+                        probs.append('the file given as actual holds %r, the actual string was %r' % (got[:60], actual[:60]))
+                excl = any(k in kw for k in ('ignore_patterns', 'ignore_substrings', 'remove_lines'))
+                if excl and badlines is not None and len(cmds) >= 2:
+                    pa, pe = fs.files.get(cmds[-1][0], ''), fs.files.get(cmds[-1][1], '')
+                    la, le = pa.split('\n'), pe.split('\n')
+                    diff = [(x, y) for x, y in zip(la, le) if x != y]
+                    want = [(actual.split('\n')[i], ref.split('\n')[i - (1 if 'remove_lines' in kw else 0)]) for i in badlines]
+                    if len(la) != len(le) or diff != want:
+                        probs.append('the post-processed pair differs on %r, the unexcused differences are %r' % (diff[:3], want))
+                elif excl and badlines is not None:
+                    probs.append('no post-processed pair is offered although exclusions were in force')
+                if 'remove_lines' in kw and len(cmds) >= 2:
+                    import difflib
+                    pa, pe = fs.files.get(cmds[-1][0], ''), fs.files.get(cmds[-1][1], '')
+                    only = [d for d in difflib.ndiff(pa.split('\n'), pe.split('\n')) if d[:1] in '+-']
+                    shown = [d for d in only if any(r_ in d[2:] for r_ in kw['remove_lines']) and not d[2:].startswith('***')]
+                    if shown:
+                        probs.append('the post-processed pair shows the removable line %r as a difference' % shown[0][2:])
+            run.ob('C15-ARTEFACTS', '%s:%s' % (entry, name), not probs,
+                   '%s, %s: %s' % (entry, name, '; '.join(probs[:2]) or ('nothing written' if passes else 'artefacts %s' % sorted(fs.written))),
+                   fn=fc.methods[entry])
+    # binary
+    bins = [('identical', b'abc\x00def', b'abc\x00def'), ('one-byte', b'abc\x00def', b'abc\x01def'), ('longer', b'abcdef', b'abcdefgh'),
+            ('shorter', b'abcdef', b'abc'), ('first-byte', b'xbcdef', b'abcdef'), ('empty-actual', b'', b'abc'), ('crlf', b'a\r\nb', b'a\nb')]
+    if True:
+        big = bytes(range(256)) * 300          # 76800 bytes: past any 64 KiB block
+        bins += [('beyond-64KiB', big[:70001] + b'X' + big[70002:], big), ('beyond-64KiB-and-longer', big[:66000] + b'\x00\x00tail', big[:66000] + b'\x01')]
+    for name, actual, refb in bins:
+        failures, msg, fs = _run_cmp(p, fc, 'check_binary_file', ['/w/o.bin', '/ref/o.bin'], {}, {'/w/o.bin': actual, '/ref/o.bin': refb})
+        n += 1
+        probs = []
+        if failures is None:
+            probs.append(msg)
+        elif actual == refb:
+            if failures or fs.written:
+                probs.append('failures=%s, written=%s for identical bytes' % (failures, sorted(fs.written)))
+        else:
+            if not failures:
+                probs.append('passes although the bytes differ')
+            if fs.written:
+                probs.append('writes %s' % sorted(fs.written))
+            off = next((i for i, (x, y) in enumerate(zip(actual, refb)) if x != y), min(len(actual), len(refb)))
+            m_ = _re.search(r'byte offset (\d+)', msg)
+            if not m_ or int(m_.group(1)) != off:
+                probs.append('reports offset %s, the first difference is at %d' % (m_.group(1) if m_ else None, off))
+            nums = [int(x) for x in _re.findall(r'length (\d+)', msg)]
+            if len(actual) == len(refb):
+                if nums != [len(actual)]:
+                    probs.append('reports lengths %s, both are %d' % (nums, len(actual)))
+            elif nums != [len(actual), len(refb)]:
+                probs.append('reports lengths %s, they are %d and %d' % (nums, len(actual), len(refb)))
+            if '/w/o.bin' not in msg or '/ref/o.bin' not in msg:
+                probs.append('the message does not name both files')
+        run.ob('C15-ARTEFACTS', 'check_binary_file:%s' % name, not probs, 'check_binary_file, %s: %s' % (name, '; '.join(probs[:2]) or 'as stated'),
+               fn=fc.methods['check_binary_file'])
+    run.floor('C15-ARTEFACTS', n, 39)
